@@ -199,6 +199,11 @@ fn rep_sequences(ctx: &mut Ctx) {
     } else {
         world::swarm(ctx, SwarmOpts::default());
     }
+    // beyond the undisturbed enumeration, partners slip malformed requests (no delimiter / nothing
+    // after the delimiter) in front of some of their requests: recv rejects (or drops) them, and a
+    // rejected request is not a received request - the lock-step state must not move
+    let malformed: Vec<Vec<Option<u8>>> = (0..2).map(|_| (0..6).map(|_| if ctx.idx >= NSEQ && ctx.plan(4) == 0 { Some(ctx.plan(3) as u8) } else { None }).collect()).collect();
+    let n_malformed: usize = malformed.iter().flatten().flatten().count();
     let viol: Viol = Rc::new(RefCell::new(Vec::new()));
     let done = Rc::new(RefCell::new(false));
     let (vl, dn) = (viol.clone(), done.clone());
@@ -213,6 +218,12 @@ fn rep_sequences(ctx: &mut Ctx) {
             let mut peer = RawPeer::connect(&ep).expect("connect");
             peer.hello("DEALER", None).await.expect("hello");
             for s in 0..6u32 {
+                match malformed[p as usize][s as usize] {
+                    Some(0) => peer.send_msg(&[b"junk".to_vec()]).await.expect("write"),
+                    Some(1) => peer.send_msg(&[vec![]]).await.expect("write"),
+                    Some(_) => peer.send_msg(&[b"id".to_vec(), vec![]]).await.expect("write"),
+                    None => {}
+                }
                 let mut m = vec![vec![]];
                 m.extend(tagged(p, s, &[2]));
                 peer.send_msg(&m).await.expect("write");
@@ -230,11 +241,28 @@ fn rep_sequences(ctx: &mut Ctx) {
         rt::task::idle().await;
         let mut held: Option<(u16, u32)> = None;
         let mut got: [u32; 2] = [0, 0];
+        let mut rejected = 0usize;
+        // a recv that rejected a malformed request while an (unanswered) request was held: whether
+        // that older request may still be answered is not settled by the statement, so the next
+        // send is judged only for where it writes, not for whether it is accepted
+        let mut ambiguous = false;
         for (step, is_send) in seq2.iter().enumerate() {
             let before: Vec<usize> = conns.iter().map(|c| c.tap_len_from(1)).collect();
             if *is_send {
                 let reply = tagged(7, step as u32, &[4]);
                 let r = rep.send(to_zmq(&reply)).await;
+                if ambiguous {
+                    ambiguous = false;
+                    held = None;
+                    if r.is_err() {
+                        rt::task::yield_now().await;
+                        if conns.iter().enumerate().any(|(i, c)| c.tap_len_from(1) != before[i]) {
+                            vl.borrow_mut().push(("refused_send_wrote_bytes", format!("step {step}: refused reply changed a connection")));
+                            return world::park().await;
+                        }
+                    }
+                    continue;
+                }
                 match (held, r) {
                     (Some((p, _)), Ok(())) => {
                         let msgs = rc::parse_stream(&conns[p as usize].tap_from(1)).messages();
@@ -256,7 +284,7 @@ fn rep_sequences(ctx: &mut Ctx) {
                         return world::park().await;
                     }
                     (None, Ok(())) => {
-                        vl.borrow_mut().push(("reply_accepted_without_request", format!("step {step} of {}: send accepted although no request is held", fmt_seq(&seq2))));
+                        vl.borrow_mut().push(("reply_accepted_without_request", format!("step {step} of {}: send accepted although no request is held ({rejected} malformed requests were rejected by recv before)", fmt_seq(&seq2))));
                         return world::park().await;
                     }
                     (None, Err(ZmqError::ReturnToSender { message, .. })) => {
@@ -290,6 +318,13 @@ fn rep_sequences(ctx: &mut Ctx) {
                                 vl.borrow_mut().push(("request_out_of_order", format!("step {step}: recv returned {} ({other:?}), expected next of some partner {:?}", show_msg(&f), got)));
                                 return world::park().await;
                             }
+                        }
+                    }
+                    Err(_) if rejected < n_malformed => {
+                        rejected += 1;
+                        rt::count("probe_malformed_request_rejected");
+                        if held.is_some() {
+                            ambiguous = true;
                         }
                     }
                     Err(e) => {
